@@ -17,7 +17,7 @@ func generate(harness string) (string, error) {
 	out, err := run(harness, env(), "go", "build", "-o", stubgen, "github.com/lugu/qiloop/meta/cmd/stub")
 	if err == nil {
 		tmp := harness + "/gen/probe/probe_gen.go.tmp"
-		out, err = run(harness, env(), stubgen, "--idl", "idl/probe.idl", "--output", tmp, "--path", "verif/gen/probe")
+		out, err = run(harness, env(), stubgen, "--idl", "idl/probe.idl", "--output", tmp)
 		if err == nil {
 			if st, e := os.Stat(tmp); e == nil && st.Size() > 0 {
 				if err = os.Rename(tmp, harness+"/gen/probe/probe_gen.go"); err == nil {
